@@ -540,8 +540,9 @@ impl<Front: SocketHandler, L: ListenerHandler> Pipe<Front, L> {
         // read and forward them before the session goes away. `readable` sees
         // the end of the stream next and `check_connections` closes the
         // session once nothing is in flight any more.
-        let request_pending =
-            self.frontend_buffer.available_data() > 0 || self.frontend_readiness.event.is_readable();
+        let request_pending = self.frontend_buffer.available_data() > 0
+            || self.splice_in_pending() > 0
+            || self.frontend_readiness.event.is_readable();
         if request_pending && self.backend_socket.is_some() {
             return SessionResult::Continue;
         }
@@ -556,7 +557,9 @@ impl<Front: SocketHandler, L: ListenerHandler> Pipe<Front, L> {
         // client are written out before the session goes away; `backend_writable`
         // closes it once they are out (or the write fails on a backend that is
         // really gone).
-        if self.frontend_buffer.available_data() > 0 && !self.backend_readiness.event.is_error() {
+        if (self.frontend_buffer.available_data() > 0 || self.splice_in_pending() > 0)
+            && !self.backend_readiness.event.is_error()
+        {
             self.backend_readiness.interest.insert(Ready::WRITABLE);
             self.backend_readiness.event.remove(Ready::HUP);
             return SessionResult::Continue;
@@ -1084,9 +1087,21 @@ impl<Front: SocketHandler, L: ListenerHandler> Pipe<Front, L> {
                 return SessionResult::Close;
             }
             SocketResult::Closed => {
-                self.reset_readiness_for_close();
-                self.log_request_success(metrics);
-                return SessionResult::Close;
+                // same rule as the buffered `readable`: the client's end of
+                // stream does not drop what it sent before it
+                self.frontend_status = match self.frontend_status {
+                    ConnectionStatus::Normal => ConnectionStatus::WriteOpen,
+                    ConnectionStatus::ReadOpen => ConnectionStatus::Closed,
+                    s => s,
+                };
+                self.frontend_readiness.interest.remove(Ready::READABLE);
+                self.frontend_readiness.event.remove(Ready::READABLE);
+                if !self.check_connections() {
+                    self.reset_readiness_for_close();
+                    self.log_request_success(metrics);
+                    return SessionResult::Close;
+                }
+                self.propagate_frontend_eof();
             }
             SocketResult::WouldBlock => {
                 self.frontend_readiness.event.remove(Ready::READABLE);
@@ -1221,6 +1236,13 @@ impl<Front: SocketHandler, L: ListenerHandler> Pipe<Front, L> {
                 self.backend_readiness.interest.remove(Ready::WRITABLE);
                 count!(names::backend::BACK_BYTES_OUT, sz as i64);
                 metrics.backend_bout += sz;
+                // same rule as the buffered `backend_writable`
+                if !self.check_connections() {
+                    self.reset_readiness_for_close();
+                    self.log_request_success(metrics);
+                    return SessionResult::Close;
+                }
+                self.propagate_frontend_eof();
                 return SessionResult::Continue;
             }
 
@@ -1431,6 +1453,7 @@ impl<Front: SocketHandler, L: ListenerHandler> SessionState for Pipe<Front, L> {
             // after its last bytes is reported as READABLE | HUP at once; read and
             // forward what it sent before the session goes away
             let request_pending = self.frontend_buffer.available_data() > 0
+                || self.splice_in_pending() > 0
                 || self.frontend_readiness.event.is_readable();
             if !(request_pending && self.backend_socket.is_some()) {
                 return SessionResult::Close;
